@@ -199,6 +199,8 @@ func runC14(cx *lib.Ctx) {
 // handConfigs are error-free configurations exercising every node kind of the range walk.
 var handConfigs = []string{
 	"a = 1\n",
+	// namespaced function names with gaps inside the name
+	"a = core :: max(1, 2)\nb = core::max(1)\nc = upper (\"a\")\nd = [\n  core ::\n    max(1, 2),\n]\ne = a /* c */ :: /* d */ b::c (1)\nf = (ns\n::\nfn(1))\ng = \"${ core\t::\tmax(1) }\"\n",
 	"a = b.c[0].d\nb = f(x, y...)\nc = ns::fn(1)\n",
 	"a = x[*].y[0].z\nb = x.*.y.0\nc = x[*]\nd = (x[*].y)[1]\ne = x[*].y[k + 1].z[*].w\n",
 	"a = \"lit\"\nb = \"a ${b} c\"\nc = \"${x}\"\nd = \"%{if c}yes%{else}no%{endif}\"\ne = \"%{for v in l}<${v}>%{endfor}\"\n",
